@@ -97,8 +97,9 @@ def run(ctx):
                 continue
             for nd in H.walk(fn['hir']):
                 if nd.get('k') == 'Struct' and H.res_path(nd['res']) == 'serialize::SealableOutputBuffer':
-                    lits.append((p, H.term(nd)))
-        r.check('constructed-unsealed', lits == [(SB + 'new', 'serialize::SealableOutputBuffer{buf: buf, sealed: false}')], None, built=lits)
+                    fv = dict((n_, H.term(e_)) for n_, e_ in nd['fields'])
+                    lits.append((ctx.owner(p), fv.get('buf'), fv.get('sealed')))
+        r.check('constructed-unsealed', lits == [(SB + 'new', 'buf', 'false')], None, built=lits, expected='only SealableOutputBuffer::new builds one: {buf: buf, sealed: false}')
 
     with ctx.rule('R08.3', "the client's close frame: Connection.Close{200, goodbye, 0, 0} as ConnectionClose message awaiting CloseOk", floor=3) as r:
         ems, ret, events = W.read_op(ctx, 'connection::Connection::close', ['self'])
